@@ -522,12 +522,14 @@ SignalHandler::SignalHandler(BasicSolver &s)
   solver_.set_interrupter(this);
   signal_message_ptr_ = message_.c_str();
   signal_message_size_ = static_cast<unsigned>(message_.size());
+  // Reset the counter before the handlers are installed:
+  // a signal arriving right after installation must not be lost.
+  stop_ = 0;
   MP_VERIF_SIGPOINT("ctor:before-install");
   std::signal(SIGINT, HandleSigInt);
   MP_VERIF_SIGPOINT("ctor:sigint-installed");
   std::signal(SIGTERM, HandleSigInt);
   MP_VERIF_SIGPOINT("ctor:sigterm-installed");
-  stop_ = 0;
   MP_VERIF_SIGPOINT("ctor:done");
 }
 
@@ -545,9 +547,12 @@ SignalHandler::~SignalHandler() {
 
 void SignalHandler::SetHandler(InterruptHandler handler, void *data) {
   MP_VERIF_SIGPOINT("sethandler:begin");
-  handler_ = handler;
-  MP_VERIF_SIGPOINT("sethandler:handler-stored");
+  // No callback while the pair is replaced, so that a signal in between
+  // never sees the new callback with the old data or vice versa.
+  handler_ = 0;
   data_ = data;
+  MP_VERIF_SIGPOINT("sethandler:handler-stored");
+  handler_ = handler;
   MP_VERIF_SIGPOINT("sethandler:done");
 }
 
